@@ -115,6 +115,11 @@ fn expected(d: &DeclSpec, hid: u16, args: &[Arg]) -> Option<V> {
                 })
                 .collect(),
         ),
+        R::ZHVecBlk => V::Seq(vec![V::Blk(a_bytes(args.first()?)?), V::Blk(a_bytes(args.get(1)?)?), V::Blk(a_bytes(args.get(2)?)?)]),
+        R::ZTupSlice => V::Seq(vec![
+            V::Int(a_int(args.first()?)?),
+            V::Seq(a_bytes(args.get(1)?)?.chunks_exact(2).map(|c| V::Int(i16::from_le_bytes([c[0], c[1]]) as i128)).collect()),
+        ]),
         R::ZHVecStr => {
             let (a, b) = (a_bytes(args.first()?)?, a_bytes(args.get(1)?)?);
             if a.len() > 32 || b.len() > 32 {
@@ -408,6 +413,13 @@ fn zoo_args(rng: &mut Rng, d: &DeclSpec) -> Vec<Vec<u8>> {
             vec![block(&b, 0)]
         }
         R::ZHVecStr => vec![str_lit(rng, 8), str_lit(rng, 8)],
+        R::ZHVecBlk => (0..3)
+            .map(|_| {
+                let max = if rng.chance(1, 3) { 0 } else { 5 };
+                block(&gen::special_blk_payload(rng, max, true), 0)
+            })
+            .collect(),
+        R::ZTupSlice => vec![gen::plain_literal(rng, P::U8), block(&(0..2 * rng.below(4)).map(|_| rng.byte()).collect::<Vec<u8>>(), 0)],
         R::Fail | R::FailQ => vec![gen::fail_code(rng).to_string().into_bytes()],
         _ => d.params.iter().map(|&p| gen::plain_literal(rng, p)).collect(),
     }
